@@ -130,14 +130,32 @@ Print Assumptions C20_cond_init_exits.
 (* ------------------------------------------------------------------ *)
 (* (b) stack size                                                      *)
 
-(* For a page size 2^k and 0 < s <= 2^64 - page: the size handed to
-   pthread_attr_setstacksize is >= s, >= the minimum, page-aligned (or the minimum itself,
-   which is page-aligned whenever min_ok), and less than a page above s unless the minimum
-   applies. *)
+(* uv_thread_create_ex with the guard of commit 4452eb2; [stack_size_applied] = Some r: the
+   size handed to pthread_attr_setstacksize, None: UV_EINVAL returned before anything is set
+   up (no attribute, no thread).
+
+   The full clause (DESIGN item 16, formerly C20_stack_wrap_refuted): for EVERY request
+   0 < s < 2^64 - in particular those within a page of 2^64 - whenever a thread can be
+   created (uv_thread_create_ex can only return 0 then) the size applied is >= the request,
+   >= the minimum and page-aligned (or the minimum itself); a request is refused only when
+   it lies within a page of 2^64, where no rounding can satisfy it. *)
+Theorem C20_stack_never_smaller :
+  forall page k psm rl s,
+  page = 2 ^ k -> 0 <= k -> 0 < s < two64 ->
+  match stack_size_applied page psm rl true s with
+  | Some r => s <= r /\ min_stack_size psm <= r /\ (r mod page = 0 \/ r = min_stack_size psm)
+  | None => two64 - page < s
+  end.
+Proof. exact stack_never_smaller. Qed.
+Print Assumptions C20_stack_never_smaller.
+
+(* For a page size 2^k and 0 < s <= 2^64 - page the request is accepted and the size is >= s,
+   >= the minimum, page-aligned (or the minimum itself, which is page-aligned whenever
+   min_ok), and less than a page above s unless the minimum applies. *)
 Theorem C20_stack_at_least_requested :
   forall page k psm rl s,
   page = 2 ^ k -> 0 <= k -> 0 < s <= two64 - page ->
-  let r := stack_size_applied page psm rl true s in
+  exists r, stack_size_applied page psm rl true s = Some r /\
   s <= r /\ min_stack_size psm <= r /\
   (r mod page = 0 \/ r = min_stack_size psm) /\
   (min_ok page psm -> r mod page = 0) /\
@@ -145,11 +163,18 @@ Theorem C20_stack_at_least_requested :
 Proof. exact stack_at_least_requested. Qed.
 Print Assumptions C20_stack_at_least_requested.
 
+(* within a page of 2^64: UV_EINVAL, nothing set up *)
+Theorem C20_stack_near_max_rejected :
+  forall page psm rl s, two64 - page < s -> 0 < s ->
+  stack_size_applied page psm rl true s = None.
+Proof. exact stack_near_max_rejected. Qed.
+Print Assumptions C20_stack_near_max_rejected.
+
 (* s = 0 (or no UV_THREAD_HAS_STACK_SIZE) gives the default of uv__thread_stack_size, which
    is the glibc default or the soft RLIMIT_STACK rounded down to a page, then >= minimum *)
 Theorem C20_stack_zero_gives_default :
   forall page psm rl flag s, (flag = false \/ s = 0) ->
-  stack_size_applied page psm rl flag s = thread_stack_size page psm rl.
+  stack_size_applied page psm rl flag s = Some (thread_stack_size page psm rl).
 Proof. exact stack_zero_gives_default. Qed.
 Print Assumptions C20_stack_zero_gives_default.
 
@@ -162,19 +187,16 @@ Theorem C20_thread_stack_size_spec :
 Proof. exact thread_stack_size_spec. Qed.
 Print Assumptions C20_thread_stack_size_spec.
 
-(* observation (DESIGN item 16): within a page of 2^64 the rounding wraps and the thread
-   gets less than it asked for.  Full clause: forall 0 < s < 2^64, stack_ok .. s. *)
-Theorem C20_stack_wrap_refuted :
-  exists s, 0 < s < two64 /\ ~ stack_ok 4096 16384 (RlCur 8388608) s.
-Proof. exact stack_wrap_refuted. Qed.
-Print Assumptions C20_stack_wrap_refuted.
-
-Theorem C20_stack_wrap_all :
-  forall page k psm rl s,
-  page = 2 ^ k -> 0 <= k -> 0 < psm < two64 - page -> page < two64 - 8192 ->
-  two64 - page < s < two64 -> ~ stack_ok page psm rl s.
-Proof. exact stack_wrap_all. Qed.
-Print Assumptions C20_stack_wrap_all.
+(* the old failing input of DESIGN item 16 on the repaired model: SIZE_MAX and 2^64-page+1
+   are refused, 2^64-page and 2^64-page-1 round to 2^64-page; the code without the guard
+   answered SIZE_MAX with the 16 KiB minimum *)
+Example C20_stack_wrap_fixed_example :
+  stack_size_applied 4096 16384 (RlCur 8388608) true (two64 - 1) = None /\
+  stack_size_applied 4096 16384 (RlCur 8388608) true (two64 - 4095) = None /\
+  stack_size_applied 4096 16384 (RlCur 8388608) true (two64 - 4096) = Some (two64 - 4096) /\
+  stack_size_applied 4096 16384 (RlCur 8388608) true (two64 - 4097) = Some (two64 - 4096) /\
+  stack_size_applied_unguarded 4096 16384 (two64 - 1) = 16384.
+Proof. exact stack_wrap_fixed_example. Qed.
 
 (* ------------------------------------------------------------------ *)
 (* (c) uv_cond_timedwait                                               *)
@@ -302,7 +324,7 @@ Example C20_custom_sem_example :
 Proof. exact custom_sem_example. Qed.
 
 Example C20_stack_timedwait_examples :
-  stack_size_applied 4096 16384 (RlCur 8388608) true 1048577 = 1052672 /\
+  stack_size_applied 4096 16384 (RlCur 8388608) true 1048577 = Some 1052672 /\
   timedwait_deadline 1000 (hrtime_of 5 7) = (5, 1007) /\
   timedwait_deadline max64 (hrtime_of 5 7) = (5, 6).
 Proof. vm_compute. auto. Qed.
